@@ -2,6 +2,7 @@ package llvc
 
 import (
 	"fmt"
+	"path/filepath"
 	"sort"
 	"strconv"
 	"strings"
@@ -30,8 +31,10 @@ type Obligation struct {
 	facts      *factNode
 	known      *knownNode
 	values     []string
-	hints      []smt.Term // sufficient refutations tried when the exact query is undecided (counterexample search)
-	cex        *smt.Term  // refutation under which a counterexample was found (replaces "not goal")
+	probes     []NamedTerm // named terms whose model values explain a counterexample
+	callReplay *callReplay // call-hook obligations: how to replay the call natively
+	hints      []smt.Term  // sufficient refutations tried when the exact query is undecided (counterexample search)
+	cex        *smt.Term   // refutation under which a counterexample was found (replaces "not goal")
 }
 
 // Query returns the SMT-LIB text whose unsatisfiability proves the obligation.
@@ -130,6 +133,7 @@ type blockProbe struct {
 
 type callProbe struct {
 	kind     string
+	ghost    bool // made by the second execution of a call2 hook (not a call of the real program)
 	desc     string
 	pc       smt.Term
 	mapName  string
@@ -223,6 +227,29 @@ func Verify(mod *Module, funcName string, opts Options) (*Result, error) {
 		}
 		return nil, err
 	}
+	// specifications restricted to pinned frame bytes: one extra execution each
+	if opts.onlyRef == nil {
+		for i := range spec.Functional {
+			ref := spec.Functional[i]
+			if len(ref.Pin) == 0 || !(opts.AllFunctional || ref.Property == opts.Property) {
+				continue
+			}
+			so := opts
+			so.onlyRef = &ref
+			sub, err := Verify(mod, funcName, so)
+			if err != nil {
+				return nil, err
+			}
+			if sub.Rejected != "" {
+				res.Rejected = "pinned run for " + ref.File + ": " + sub.Rejected
+				return res, nil
+			}
+			res.Obligations = append(res.Obligations, sub.Obligations...)
+			res.ExecTimeS += sub.ExecTimeS
+			res.Steps += sub.Steps
+			res.Notes = append(res.Notes, fmt.Sprintf("%s: obligations generated by a separate execution with frame bytes pinned to %v", ref.File, ref.Pin))
+		}
+	}
 	return res, nil
 }
 
@@ -257,6 +284,18 @@ func (e *executor) verifyEntry(f *Function, pt string, spec *ProgSpec) error {
 		panic("region numbering")
 	}
 	e.res.pkt0, e.res.ctx0, e.res.ctxSize, e.res.ctxStruct = pkt.init.Base, cr.init.Base, int(ctxSize), e.ctxStruct
+	if e.opts.onlyRef != nil {
+		for k, v := range e.opts.onlyRef.Pin {
+			off, err1 := strconv.ParseInt(k, 0, 64)
+			bv, err2 := strconv.ParseUint(v, 0, 8)
+			if err1 != nil || err2 != nil || off < 0 {
+				return fmt.Errorf("bad pin %q:%q in the specification of %s", k, v, f.Name)
+			}
+			pkt.init.Ov[off] = Byte{V: constVal(bv, 8)}
+			e.tm.axiom(fmt.Sprintf("pin:%d", off), smt.Eq(smt.Select(pkt.init.Base, lit(uint64(off), 64)), lit(bv, 8)), pkt.init.Base.S)
+		}
+		e.mute = 1 // the program's own obligations belong to the unpinned run
+	}
 	e.pktLen0 = e.tm.declConst("pkt_len0", smt.BV(64))
 	e.tm.axiom("pkt_len0", e.tm.icmp("ule", e.pktLen0, lit(65535, 64)), "pkt_len0")
 	e.res.pktLen0 = e.pktLen0
@@ -294,6 +333,20 @@ func (e *executor) verifyEntry(f *Function, pt string, spec *ProgSpec) error {
 	rv, out, err := e.execFunc(f, []*Val{e.ptrTo(cr, 0)}, st, "", true)
 	if err != nil {
 		return err
+	}
+	if e.opts.onlyRef != nil {
+		e.mute = 0
+		fr := e.res.topFrame
+		fr.cur, fr.iters = nil, nil
+		if out.pc.IsFalse() || rv == nil {
+			return nil
+		}
+		ret := e.tm.named("retval", rv.T)
+		e.res.retTerm, e.res.finalLen = ret, out.pktLen
+		if e.opts.onlyRef.Hook == "" || e.opts.onlyRef.Hook == "exit" {
+			return e.exitSpec(fr, out, ret, *e.opts.onlyRef)
+		}
+		return nil
 	}
 	fr := e.res.topFrame
 	fr.cur, fr.iters = nil, nil
@@ -369,6 +422,94 @@ func (e *executor) verifyEntry(f *Function, pt string, spec *ProgSpec) error {
 			if o := e.oblige(fr, &ls, "pass_unmodified", "via "+lf.label, goal, src); o != nil {
 				o.values = vals
 				o.hints = e.storeWitnesses(out.writes, pre)
+			}
+		}
+	}
+	// functional specifications evaluated at program exit
+	for _, ref := range spec.Functional {
+		if (ref.Hook != "" && ref.Hook != "exit") || len(ref.Pin) > 0 {
+			continue
+		}
+		if !(e.opts.AllFunctional || ref.Property == e.opts.Property) {
+			continue
+		}
+		if err := e.exitSpec(fr, out, ret, ref); err != nil {
+			return err
+		}
+	}
+	return nil
+}
+
+// exitSpec generates the obligations of one functional specification at
+// program exit, one set per return source (leaf).
+func (e *executor) exitSpec(fr *frame, out *State, ret smt.Term, ref FunctionalRef) error {
+	leaves := e.retSources(fr)
+	if len(leaves) == 0 {
+		leaves = []retLeaf{{label: "ret", pc: smt.True}}
+	}
+	coverDone := map[string]bool{}
+	for _, lf := range leaves {
+		var ls *State
+		var mem *RegMem
+		retT := ret
+		if lf.snap != nil && !lf.snap.multi && lf.pure {
+			sn := lf.snap
+			ls = &State{pc: sn.pc, pktLen: sn.pktLen, facts: sn.facts, known: sn.known, found: sn.found}
+			if v, ok := sn.phis[lf.reg]; ok && lf.reg != "" && !v.IsPtr {
+				retT = e.resolve(ls, v).T
+			}
+			mem = sn.pkt
+		} else {
+			c := *out
+			ls = &c
+			ls.pc = e.tm.named("pc", smt.And(out.pc, lf.pc))
+			mem = out.regMem(e, ridPacket)
+		}
+		if ls.pc.IsFalse() {
+			continue
+		}
+		outArr := e.res.pkt0
+		if !(mem.Base.S == e.res.pkt0.S && len(mem.Ov) == 0) {
+			outArr = e.flush(mem).Base
+		}
+		extra := map[string]vsVal{"ret": {retT, 32}, "outlen": {ls.pktLen, 64}}
+		fs, err := e.loadFuncSpec(ref.File, extra, &hookCtx{outArr: outArr})
+		if err != nil {
+			return err
+		}
+		probes := []NamedTerm{{"ret", retT, 32}, {"spec_scope", fs.Scope, 0}}
+		if fs.Verdict.S != "" {
+			probes = append(probes, NamedTerm{"spec_verdict", fs.Verdict, 32})
+		}
+		for _, d := range fs.Defines {
+			probes = append(probes, d)
+		}
+		if fs.Verdict.S != "" && len(fs.Cases) == 0 {
+			goal := smt.Implies(fs.Scope, e.tm.icmp("eq", retT, fs.Verdict))
+			if o := e.oblige(fr, ls, ref.Kind, "via "+lf.label, goal, "return value equals the specified verdict ("+filepath.Base(fs.File)+")"); o != nil {
+				o.probes = probes
+			}
+		}
+		if fs.Verdict.S != "" && len(fs.Cases) > 0 {
+			var cs []smt.Term
+			for _, c := range fs.Cases {
+				cs = append(cs, c.T)
+				cl := *ls // the cases are independent claims: a failing one is not assumed by the next
+				goal := smt.Implies(smt.And(fs.Scope, c.T), e.tm.icmp("eq", retT, fs.Verdict))
+				if o := e.oblige(fr, &cl, ref.Kind, c.Name+" via "+lf.label, goal, "case "+c.Name+": return value equals the specified verdict ("+filepath.Base(fs.File)+")"); o != nil {
+					o.probes = probes
+				}
+			}
+			if !coverDone[ref.File] {
+				coverDone[ref.File] = true
+				cl := &State{pc: smt.True}
+				e.oblige(fr, cl, ref.Kind, "cases cover the scope", smt.Implies(fs.Scope, smt.Or(cs...)), "the case split of "+filepath.Base(fs.File)+" is exhaustive")
+			}
+		}
+		for _, c := range fs.Contracts {
+			goal := smt.Implies(fs.Scope, c.T)
+			if o := e.oblige(fr, ls, ref.Kind, c.Name+" via "+lf.label, goal, "contract "+c.Name+" ("+filepath.Base(fs.File)+")"); o != nil {
+				o.probes = probes
 			}
 		}
 	}
@@ -765,3 +906,17 @@ func weakGroup(os []*Obligation) string {
 
 // NoWeakQueries disables the guard-sliced first attempt (debugging).
 var NoWeakQueries = false
+
+// callReplay describes the inlined call a contract obligation talks about.
+type callReplay struct {
+	fn    string
+	args  []callArg
+	twice bool
+	retW  int
+}
+
+type callArg struct {
+	ptr  bool
+	w    int
+	size int // pointer arguments: bytes of the object that are replayed (0 = not replayable)
+}
